@@ -233,6 +233,36 @@ func runC17(c *Ctx) {
 		c.Ob("C17-D3", "eio.GenerateBase64ID/seq-in-id", gb.Pos(), len(pu) == 1 && Term(pu[0].Arg(1)) == "eio.base64IDSeq", "the sequence number must be written into the id bytes")
 	}
 
+	c.Rule("C17-D5", "a closed session is unknown afterwards: whatever the close reason, the Engine.IO close body calls or defers onClose(s.id) on every path, and newSocket wires that callback to the store's delete "+
+		"— a session that ended by CLOSE packet, transport drop or buffer overflow and stays in the table keeps answering its sid with 200 instead of error 1 (shared with C06-D2)", 2)
+	{
+		owner := p.Fn("eio", "serverSocket.close")
+		body := onceBodyOf(owner, "s.closeOnce")
+		if body == nil {
+			anchorFail("C17-D5: once body of eio.serverSocket.close not found")
+		}
+		isOnClose := func(in ssa.Instruction) bool {
+			ci, ok := in.(ssa.CallInstruction)
+			if !ok {
+				return false
+			}
+			return stripAmp(Term(ci.Common().Value)) == "s.onClose" && len(ci.Common().Args) == 1 && Term(ci.Common().Args[0]) == "s.id"
+		}
+		skip, trail := CanReachExitAvoiding(body, nil, isOnClose)
+		c.Ob("C17-D5", "eio.serverSocket.close/removes-session", body.Pos(), !skip, "a path through the close body neither calls nor defers s.onClose(s.id): the session id stays known: "+trailString(p, trail))
+		ns := p.Fn("eio", "Server.newSocket")
+		nss := CallsTo(Calls(ns), `eio\.newServerSocket`)
+		okW := false
+		for _, cs := range nss {
+			for _, a := range cs.Common().Args {
+				if strings.Contains(Term(a), "socketStore).delete") || strings.Contains(Term(a), "store.delete") {
+					okW = true
+				}
+			}
+		}
+		c.Ob("C17-D5", "eio.Server.newSocket/onClose=store.delete", ns.Pos(), okW, "newServerSocket's onClose argument is not the store's delete: closed sessions are never forgotten")
+	}
+
 	c.Rule("C17-D4", "shutdown: Close sets the closed flag before sweeping the store; a session inserted after the entry check re-reads the flag and is closed instead of admitted (ADMIT-RECHECK)", 4)
 	admitRecheck(c, "C17-D4", false, true)
 	{
